@@ -77,7 +77,7 @@ SPEC = dict(
     closed_world=[
         dict(file=F, members=['callbacks_'], within=FSS, allow=[r'UNIFEX_NO_UNIQUE_ADDRESS std::optional<fused_callback_type> callbacks_;']),
         dict(file=F, members=['callback_', 'rest_'], within=FSC,
-             allow=[r':\s*callback_\(std::move\(first\), stop_callback\{source\}\)', r',\s*rest_\(source, std::move\(rest\)\.\.\.\)',
+             allow=[r'[:,]\s*callback_\(std::move\(first\), stop_callback\{source\}\)', r'[:,]\s*rest_\(source, std::move\(rest\)\.\.\.\)',
                     r'UNIFEX_NO_UNIQUE_ADDRESS First callback_;', r'UNIFEX_NO_UNIQUE_ADDRESS fused_stop_callback<Rest\.\.\.> rest_;']),
         dict(file=F, members=['source_'], within=FSS_CB, allow=[r'unifex::inplace_stop_source& source_;']),
         dict(file=H, members=['callback_', 'source_'], within=AD,
